@@ -364,20 +364,40 @@ class C05(Check):
     def _impl(self, case):
         rv, Ev = self.rv, self.Ev
         srcs, classes = [], {}
+        NOT_GIVEN = object()
+        def src_init(self_, lazy=False, early=NOT_GIVEN):
+            if early is not NOT_GIVEN: self_._eventMixin_events = early       # declared by the instance before anything else runs
+            if not lazy: rv.EventMixin.__init__(self_)                         # lazy: a subclass that never calls EventMixin.__init__
         for i, sd in enumerate(case["sources"]):
-            ck = sd.get("cls")
+            # WHERE a source's declaration lives is a case parameter (the declaration itself is sd["declared"] / sd["acceptAll"]
+            # whatever the spelling): how 0 = class attribute; 1 = _eventMixin_addEvents on the instance; 2 = _eventMixin_addEvent one
+            # by one; 3 = instance attribute assigned after construction; 4 = instance attribute assigned in __init__, the class
+            # says nothing itself (it inherits None, or its base's set).  "cls": sources with the same key are instances of ONE class;
+            # "base": the source's class derives from the class with that key.  Related sources may declare DIFFERENT sets.
+            ck, bk, how, lazy = sd.get("cls"), sd.get("base"), sd.get("how", 0) % 5, bool(sd.get("lazy"))
+            evs = [Ev[t] for t in sd["declared"]]
+            kind = sd.get("kind", "set")
+            decl = True if sd["acceptAll"] else (None if kind == "none" and not evs else
+                                               {"set": set, "list": list, "tuple": tuple, "frozenset": frozenset, "none": set}[kind](evs))
+            mine = [sorted(sd["declared"]), bool(sd["acceptAll"])]
             if ck is None or ck not in classes:
-                evs = [Ev[t] for t in sd["declared"]]
-                kind = sd.get("kind", "set")
-                decl = True if sd["acceptAll"] else (None if kind == "none" and not evs else
-                                                   {"set": set, "list": list, "tuple": tuple, "frozenset": frozenset, "none": set}[kind](evs))
-                ns = {"_eventMixin_events": decl}
-                if sd.get("lazy"): ns["__init__"] = lambda self_: None        # a subclass that never calls EventMixin.__init__
-                C_ = type("Src%d" % i, (rv.EventMixin,), ns)
-                if ck is not None: classes[ck] = C_
+                parent = classes[bk][0] if bk is not None and bk in classes else rv.EventMixin
+                ns = {"__init__": src_init}
+                if how == 0: ns["_eventMixin_events"] = decl
+                elif how != 4: ns["_eventMixin_events"] = None
+                C_, cdecl = type("Src%d" % i, (parent,), ns), (mine if how == 0 else None)
+                if ck is not None: classes[ck] = (C_, cdecl)
             else:
-                C_ = classes[ck]                                                # two instances of ONE class: no state may be shared
-            srcs.append(C_())
+                C_, cdecl = classes[ck]                                         # two instances of ONE class: no state may be shared
+            if how == 0 and cdecl != mine: how = 3                              # the class declares something else: this instance overrides it
+            if how in (1, 2) and (sd["acceptAll"] or (lazy and evs) or C_._eventMixin_events is not None):
+                how = 3               # _eventMixin_addEvent needs the per-instance set (it would initialise a lazy source / add to the CLASS's set)
+            s_ = C_(lazy, decl) if how == 4 else C_(lazy)
+            if how == 1: s_._eventMixin_addEvents([evs, tuple(evs), (e for e in evs)][i % 3])
+            elif how == 2:
+                for e in evs: s_._eventMixin_addEvent(e)
+            elif how == 3: s_._eventMixin_events = decl
+            srcs.append(s_)
         # listener ids are compared relative to the next id the library will hand out; found by subscribing once to a throw-away source
         # (not by reading a private counter: a library that keeps its counter elsewhere is the same library)
         _probe = type("ProbeSrc", (rv.EventMixin,), {"_eventMixin_events": True})()
@@ -915,8 +935,8 @@ class C05(Check):
         return {"halt": halt, "acts": [[a, g] for a, g in acts], "ret": r}
 
     @staticmethod
-    def source(declared=(0, 1), acceptAll=False, lazy=False, kind="set", cls=None):
-        return {"declared": list(declared), "acceptAll": acceptAll, "lazy": lazy, "kind": kind, "cls": cls}
+    def source(declared=(0, 1), acceptAll=False, lazy=False, kind="set", cls=None, how=0, base=None):
+        return {"declared": list(declared), "acceptAll": acceptAll, "lazy": lazy, "kind": kind, "cls": cls, "how": how, "base": base}
 
     def case(self, ops, scripts=(), declared=(0, 1), acceptAll=False, lazy=False, sources=None):
         if sources is None: sources = [self.source(declared, acceptAll, lazy)]
@@ -1008,6 +1028,48 @@ class C05(Check):
                 S.append(case([add(0, 1, via=via, s=first), add(0, 2, via=via, s=1 - first), R(0, s=0), R(0, s=1), R(0, "cls", s=1 - first),
                                add(0, 3, via=via, s=first), add(3, 4, via=via, s=0), add(3, 5, via=via, s=1), R(3, s=0), R(3, s=1), cnt(0), cnt(1)],
                               sources=[source([0, 1]), source([1, 3])]))
+        # ... also when the two sources are RELATED and declare different sets: instances of one class that declare their events per
+        # instance (_eventMixin_addEvents / _eventMixin_addEvent / an instance attribute, set after construction or in __init__), an
+        # instance overriding what its class declares, a base-class instance next to an instance of a subclass that declares more,
+        # fewer or other events (per class or per instance).  Every question (raise in the four forms, subscribe in every spelling,
+        # subscribe by method names) is put to the one and then to the other, in both orders, and again after both have answered.
+        def cross(first, via, bvia):
+            a, b = first, 1 - first
+            ops = []
+            for et in (0, 1, 3):
+                ops += [R(et, s=a), R(et, s=b), R(et, "cls", s=b), R(et, "cls", True, s=a)]
+            ops += [add(0, 1, via=via, s=a), add(0, 2, via=via, s=b), R(0, s=0), R(0, s=1), R(0, "cls", s=b),
+                    add(0, 3, via=via, s=a), add(3, 4, via=via, s=a), add(3, 5, via=via, s=b), add(1, 6, via=via, s=a), add(1, 1, 2, via=via, s=b),
+                    R(3, s=0), R(3, s=1), R(1, "inst", True, s=a), R(1, "inst", True, s=b),
+                    bind([0, 1, 3], 100, via=bvia, s=a), bind([0, 1, 3], 200, via=bvia, s=b),
+                    add(3, 2, via=via, s=b), add(3, 3, via=via, s=a), add(1, 4, via=via, s=b), add(1, 5, via=via, s=a)]
+            for et in (0, 1, 3):
+                ops += [R(et, s=a), R(et, s=b), R(et, "cls", s=a), R(et, "inst", True, s=b)]
+            return ops + [cnt(0), cnt(1)]
+        def related(d0, d1, acc1=False):
+            src = lambda d, acc=False, **kw: source([] if acc else d, acc, **kw)
+            out = [[src(d0, how=h), src(d1, acc1, how=h)] for h in (1, 3)]                                      # unrelated classes, declared per instance
+            out += [[src(d0, cls=1, how=h), src(d1, acc1, cls=1, how=h2)] for h, h2 in ((1, 1), (2, 2), (3, 3), (4, 4), (1, 3), (4, 2), (0, 0), (0, 1))]
+            out += [[src(d0, cls=1, how=h), src(d1, acc1, cls=2, base=1, how=h2)] for h, h2 in ((0, 0), (4, 4), (0, 4), (1, 2), (3, 0), (0, 3))]
+            return out
+        for d0, d1, acc1 in (([0, 1], [1, 3], False), ([0], [0, 1, 3], False), ([0, 1, 3], [3], False), ([0, 1], [], True)):
+            for pair in related(d0, d1, acc1):
+                for first in (0, 1):
+                    for k, via in enumerate((0, 2, 5) if acc1 else (0, 1, 2, 3, 4, 6)):
+                        S.append(case(cross(first, via, (k + first) % (3 if acc1 else 6)), [(4, [sc(), sc([(add(3, 6, via=via, s=first), True)])])], sources=pair))
+        # three of a family: a base class, a subclass, a subclass of the subclass, each declaring one event more; asked in every order
+        fam = [source([0], cls=1), source([0, 1], cls=2, base=1), source([0, 1, 3], cls=3, base=2)]
+        fam2 = [source([0], cls=1, how=4), source([0, 1], cls=1, how=1), source([0, 1, 3], cls=2, base=1, how=4)]
+        for order in itertools.permutations(range(3)):
+            for via in (1, 3, 4, 0):
+                ops = []
+                for et in (3, 1, 0):
+                    ops += [add(et, 1 + s, via=via, s=s) for s in order] + [R(et, s=s) for s in order]
+                ops += [bind([0, 1, 3], 100 * (s + 1), via=s, s=s) for s in order]
+                ops += [add(et, 4 + s, via=via, s=s) for et in (0, 1, 3) for s in reversed(order)]
+                ops += [R(et, f, ne, s=s) for et in (0, 1, 3) for s in order for f, ne in (("inst", False), ("cls", True))] + [cnt(s) for s in order]
+                S.append(case(ops, sources=fam if via != 4 else fam2))
+                S.append(case(ops, sources=fam2 if via != 4 else fam))
         S.append(case([add(0, 1), R(0), R(0, "cls"), cnt()], sources=[source([], kind="set"), source([0])]))
         # HARDENING 2 (object reuse): the same event object raised again (halted or not, on the same or the other source), forwarded from
         # inside its own handler (event.halt and event.source are shared), the same sink bound twice and to two sources
@@ -1206,14 +1268,29 @@ class C05(Check):
 
     DECL = [[0, 1], [0, 1], [0, 1, 2], [0], [0, 3], [3, 4], [0, 1, 5], [1, 3, 5]]
     def rand_case(self, rng, nops):
-        nsrc = 2 if rng.random() < 0.3 else 1
+        x = rng.random()
+        nsrc = 3 if x < 0.05 else (2 if x < 0.4 else 1)
         sources = []
         for _ in range(nsrc):
             acceptAll = rng.random() < 0.08
             sources.append(self.source([] if acceptAll else rng.choice(self.DECL), acceptAll, rng.random() < 0.12,
-                                       rng.choice(["set", "set", "list", "tuple", "frozenset"])))
-        if nsrc == 2 and rng.random() < 0.4:                # two instances of one class
-            sources[1] = dict(sources[0]); sources[0]["cls"] = sources[1]["cls"] = 1
+                                       rng.choice(["set", "set", "list", "tuple", "frozenset"]),
+                                       how=rng.randint(0, 4) if rng.random() < 0.3 else 0))
+        if nsrc >= 2:
+            y = rng.random()
+            if y < 0.2:                                     # two instances of one class, same declaration
+                sources[1] = dict(sources[0]); sources[0]["cls"] = sources[1]["cls"] = 1
+            elif y < 0.45:                                  # two instances of one class, each with its own declaration
+                sources[0]["cls"] = sources[1]["cls"] = 1
+                for sd in sources[:2]: sd["how"] = rng.randint(0, 4)
+            elif y < 0.7:                                   # an instance of a class and an instance of its subclass
+                sources[0]["cls"] = 1; sources[1]["cls"] = 2; sources[1]["base"] = 1
+                if rng.random() < 0.5: sources[0]["how"], sources[1]["how"] = rng.choice([(0, 0), (0, 4), (4, 4), (1, 2), (3, 0), (0, 3)])
+            if nsrc == 3 and rng.random() < 0.7:            # the third is a twin or a subclass of one of them
+                k = rng.randrange(2)
+                if sources[k]["cls"] is None: sources[k]["cls"] = 5
+                if rng.random() < 0.5: sources[2]["cls"] = sources[k]["cls"]
+                else: sources[2]["cls"] = 6; sources[2]["base"] = sources[k]["cls"]
         ctx = {"adds": 0, "binds": 0, "sinkowners": [], "bindlist": [], "nsrc": nsrc, "acceptAll": [sd["acceptAll"] for sd in sources]}
         ops = [self.rand_action(rng, ctx, 0) for _ in range(nops)]
         scripts = []
